@@ -209,6 +209,9 @@ func checkC04(c *Ctx) {
 		c.Undecided("C04-R1", "package tcell", "-", "not loaded")
 		return
 	}
+	c.Rule("C04-R11", "the hand-back path selects no colour and switches no attribute on: disengage and the helpers it calls emit resets only (a clear through the drawing helper re-selects the screen's default colours after ResetFgBg)")
+	c.Expect("C04-R11", 1)
+	checkHandBackSelectsNoColours(c, p, "C04-R11")
 	c.Rule("C04-R10", "nothing is drawn on a terminal that has been handed back: draw() does nothing unless the screen is running, or every one of its callers (Show, Sync, the resize handler) tests that itself — what Sync writes to a suspended terminal is never undone, Fini finds nothing to restore")
 	c.Expect("C04-R10", 1)
 	c.asRule("C06-R8", "C04-R10", func() { c06DrawProgress(c, p) })
